@@ -4,16 +4,16 @@ CONSTANTS
   Realms = {"ra", "rb"}
   RS = {"p", "q"}
   Slots = {1}
-  CfgSet <- CfgWide
+  CfgSet <- CfgWide1
   OfferSets <- OffersAll
-  Lives = {0, 2}
+  Lives = {0}
   TPS = 1
-  MaxClock = 2
+  MaxClock = 0
   MaxCalls = 2
   MaxTok = 2
   MaxRT = 2
-  Bodies = {"none", "plain", "getbody"}
-  Statuses <- StatusAll
+  Bodies = {"none", "getbody"}
+  Statuses <- StatusFew
   TickWhile = {"idle"}
 INVARIANT Inv
 CHECK_DEADLOCK FALSE
